@@ -250,4 +250,17 @@ def patch_gnpy():
     import gnpy.core.network as network
     import gnpy.topology.request as request
     patch(info, elements, utils, su, parameters, network, request)
+    # Transceiver.update_snr accumulates `snr_added += db2lin(-s)` starting from the int 0: the first addend fixes the dtype
+    # of the accumulator, and a float64 accumulator cannot take a later symbolic addend in place.  In symbolic runs the
+    # elements-module name db2lin returns the same values as dtype=object arrays.
+    _db2lin = elements.db2lin
+
+    def db2lin_obj(value):
+        r = _db2lin(value)
+        if _OBJ_CTORS[0] and isinstance(r, np.ndarray) and r.dtype != object:
+            return r.astype(object)
+        return r
+    if elements.__dict__.get('db2lin') is utils.db2lin:
+        elements.db2lin = db2lin_obj
+        SHIMMED.add('gnpy.core.elements.db2lin')
     return sorted(SHIMMED)
